@@ -84,6 +84,10 @@ func (s *BadSmellListener) EnterClassDeclaration(ctx *ClassDeclarationContext) {
 
 func getTypeData(typ *TypeTypeContext) string {
 	var typeData string
+	if typ.ClassOrInterfaceType() == nil {
+		// a primitive type
+		return typeData
+	}
 	classOrInterface := typ.ClassOrInterfaceType().(*ClassOrInterfaceTypeContext)
 	if classOrInterface != nil {
 		identifiers := classOrInterface.AllIdentifier()
@@ -169,8 +173,16 @@ func (s *BadSmellListener) EnterFieldDeclaration(ctx *FieldDeclarationContext) {
 }
 
 func (s *BadSmellListener) EnterLocalVariableDeclaration(ctx *LocalVariableDeclarationContext) {
-	typ := ctx.GetChild(0).(antlr.ParseTree).GetText()
-	variableName := ctx.GetChild(1).GetChild(0).GetChild(0).(antlr.ParseTree).GetText()
+	// `var x = ...` has no declared type; `final int x` starts with a modifier, not with the type
+	if ctx.TypeType() == nil || ctx.VariableDeclarators() == nil {
+		return
+	}
+	declarators := ctx.VariableDeclarators().(*VariableDeclaratorsContext).AllVariableDeclarator()
+	if len(declarators) == 0 {
+		return
+	}
+	typ := ctx.TypeType().GetText()
+	variableName := declarators[0].(*VariableDeclaratorContext).VariableDeclaratorId().GetText()
 	localVars[variableName] = typ
 }
 
@@ -292,7 +304,7 @@ func countMethodIfSwitch(statement IBlockStatementContext, bsInfo *bs_domain.Fun
 }
 
 func (s *BadSmellListener) EnterAnnotation(ctx *AnnotationContext) {
-	if currentClzType == "Class" && ctx.QualifiedName().GetText() == "Override" {
+	if currentClzType == "Class" && ctx.QualifiedName() != nil && ctx.QualifiedName().GetText() == "Override" {
 		currentClassBs.OverrideSize++
 	}
 }
